@@ -29,7 +29,9 @@ RULE = ("scheme drawn from {Blast, MRC, MRT, SVDMimo, GMDMimo, Alamouti}; "
         "data = complex (or real / small-integer) blocks whose length is a "
         "multiple of the layers; noise variance log-uniform 1e-12..10 times "
         "s_max^2 or 1e-12..1e3 times s_min^2; every scheme x shape is additionally enumerated once per "
-        "run. non-trivial = max(Nr,Nt) >= 2 and (min(Nr,Nt) == 1 or "
+        "run; histories of 2..7 setter / use steps on one object include "
+        "calls the scheme refuses (wrong antenna count, negative noise "
+        "variance). non-trivial = max(Nr,Nt) >= 2 and (min(Nr,Nt) == 1 or "
         "kappa > 2); distinct = SHA-1 of the case description")
 LEVEL_TEXT = ("Generated-input search (Hypothesis, seeded, sharded) over "
               "schemes, antenna configurations, conditioning-controlled "
